@@ -135,7 +135,7 @@ theorem runCalls_state (cs : List Call) (m : M κ) : (runCalls env inp cs m).1.c
 
 /-- interface of a phase-indexed invariant `I` (hand-over postcondition `J`) -/
 structure PhInv (env : Env κ) (inp : Bytes) (Uerr : Err → Prop) (I : Ab → M κ → Prop) (J : Directive → Bookmark → M κ → Prop) : Prop where
-  sub : ∀ e, Uerr e → U2err e
+  sub : ∀ e, Uerr e → U3err e
   frame : ∀ ab (m : M κ) (c' : Common), I ab m → I ab { m with c := c' }
   adjust : ∀ ab m, I ab m → I ab (adjustForNextInput m)
   enter : ∀ ab m, I ab m → I ab (enterSeq m)
@@ -246,7 +246,7 @@ theorem runSeq_walk' (h : PhInv env inp Uerr I J) (q : ActSeq) (self : StateId) 
         simp only [applyTrans]
         split
         · refine ⟨?_, fun hn => by cases hn⟩
-          exact fun hu => absurd (h.sub _ hu) (by simp [U2err, U2])
+          exact fun hu => absurd (h.sub _ hu) (by simp [U3err, U2err, U2, guardSite])
         · refine ⟨?_, fun _ hf => by cases hf⟩
           simp only [WalkPost]
           exact h.le _ _ _ hp (h.frame _ _ _ hc)
@@ -280,7 +280,7 @@ theorem runBody_walk (h : PhInv env inp Uerr I J) (b : Body) (self : StateId) (h
     simp only [runBody]
     split
     · refine ⟨?_, fun hn => by cases hn⟩
-      exact fun hu => absurd (h.sub _ hu) (by simp [U2err, U2])
+      exact fun hu => absurd (h.sub _ hu) (by simp [U3err, U2err, U2, guardSite])
     · exact runSeq_walk h x self hp.1.2 m hm hst
     · exact runSeq_walk h y self hp.2 m hm hst
 
@@ -301,7 +301,7 @@ theorem break_walk (h : PhInv env inp Uerr I J) (m : M κ) (hm : I (P.at m.c.sta
         some (.endOfInput (consumedByteCount inp m)))) := by
     intro m' hm'
     split
-    · exact fun hu => absurd (h.sub _ hu) (by simp [U2err, U2])
+    · exact fun hu => absurd (h.sub _ hu) (by simp [U3err, U2err, U2, guardSite])
     · simp only [WalkPost]
       exact h.frame _ _ _ hm'
   split
@@ -367,7 +367,7 @@ theorem afterSeq_walk (h : PhInv env inp Uerr I J) (self : StateId) (ch : Option
     WalkPost Uerr P I J (afterSeq env inp ch arms m) := by
   unfold afterSeq
   cases hf : findArm env.tbl m.c ch arms with
-  | none => exact fun hu => absurd (h.sub _ hu) (by simp [U2err, U2])
+  | none => exact fun hu => absurd (h.sub _ hu) (by simp [U3err, U2err, U2, guardSite])
   | some arm =>
     have harm := hsub arm (findArm_sel hf).1
     dsimp only
@@ -392,7 +392,7 @@ theorem stateFn_walk (h : PhInv env inp Uerr I J) (hph : PhaseOk env.tbl P = tru
     WalkPost Uerr P I J (stateFn env inp m) := by
   rw [stateFn_preConsume]
   cases hsd : env.tbl.state? m.c.state with
-  | none => exact fun hu => absurd (h.sub _ hu) (by simp [U2err, U2])
+  | none => exact fun hu => absurd (h.sub _ hu) (by simp [U3err, U2err, U2, guardSite])
   | some sd =>
     have hP := PhaseOk_state hph hsd
     simp only [stateOkP, Bool.and_eq_true, beq_iff_eq, List.all_eq_true] at hP
@@ -459,7 +459,7 @@ def LoopPost (Uerr : Err → Prop) (P : PLabels) (I : Ab → M κ → Prop) (J :
 theorem runLoop_walk (h : PhInv env inp Uerr I J) (hph : PhaseOk env.tbl P = true) (n : Nat) (m : M κ)
     (hm : I (P.at m.c.state) m) : LoopPost Uerr P I J (runLoop env inp n m) := by
   induction n generalizing m with
-  | zero => exact fun hu => absurd (h.sub _ hu) (by simp [U2err, U2])
+  | zero => exact fun hu => absurd (h.sub _ hu) (by simp [U3err, U2err, U2, guardSite])
   | succ n ih =>
     have h1 := stateFn_walk h hph m hm
     simp only [runLoop]
